@@ -1903,6 +1903,7 @@ pub fn floors(s: u64) -> Vec<(String, u64)> {
         }
         v.push((format!("perturb.{}.response.shape", n), 3 * k * s));
     }
+    v.push(("shape.vcom_eq.rekeyed".into(), 20 * s));
     v.push(("cheat.com_enc_eq.adaptive_generator".into(), 20 * s));
     v.push(("context.state_agrees".into(), 200 * s));
     v.push(("reject.expected".into(), 5000 * s));
